@@ -200,9 +200,11 @@ def attach_tokenizer(prop="C11", with_budget=True):
 
     b = budget() if with_budget else None
 
-    def around(orig, self, buffer, *a, **k):
+    def around(orig, *args, **kwargs):
+        self = args[0]
+        buffer = args[1] if len(args) > 1 else kwargs.get("buffer")
         if not isinstance(buffer, str):
-            return orig(self, buffer, *a, **k)
+            return orig(*args, **kwargs)
         keep = not bool(self.exclude_padding)
         # the function names this instance is SUPPOSED to know: the documented one, plus whatever the
         # harness itself registered on this very instance (it records that in _vmon_funcs).  Not read
@@ -211,7 +213,7 @@ def attach_tokenizer(prop="C11", with_budget=True):
         if b is not None and b.ok:
             b.start(step_limit(buffer))
         try:
-            res = orig(self, buffer, *a, **k)
+            res = orig(*args, **kwargs)
         except BudgetExceeded:
             b.stop()
             check_tokens(prop, buffer, keep, None, None, over_budget=True, funcs=funcs)
@@ -296,9 +298,12 @@ def attach_parser(prop, checks, with_budget=True):
     b = budget() if with_budget else None
     state = _STATE
 
-    def around(orig, self, input_text, *a, **k):
+    def around(orig, *args, **kwargs):
+        # (the call is passed on in exactly the form it was made: positional or by keyword)
+        self = args[0]
+        input_text = args[1] if len(args) > 1 else kwargs.get("input_text")
         if not isinstance(input_text, str):
-            return orig(self, input_text, *a, **k)
+            return orig(*args, **kwargs)
         rec = core.REC
         hist = getattr(self, "_vmon_history", None)
         if b is not None and b.ok:
@@ -307,7 +312,7 @@ def attach_parser(prop, checks, with_budget=True):
         over = False
         state["in_parse"] = True
         try:
-            res = orig(self, input_text, *a, **k)
+            res = orig(*args, **kwargs)
         except BudgetExceeded:
             over = True
         except BaseException as e:
